@@ -598,8 +598,12 @@ func (ip *Interp) classValue(a ClassExprAttr, log bool) (value string, css bool)
 }
 
 // HasCondClass reports whether a class expression stands inside a conditional attribute somewhere in ns.
-func HasCondClass(ns []Node) bool {
-	found := false
+func HasCondClass(ns []Node) bool { f, _ := condHoisted(ns); return f }
+
+// HasCondScript reports whether a script-template handler stands inside a conditional attribute.
+func HasCondScript(ns []Node) bool { _, s := condHoisted(ns); return s }
+
+func condHoisted(ns []Node) (found, condScript bool) {
 	var attrs func(as []Attr, inCond bool)
 	attrs = func(as []Attr, inCond bool) {
 		for _, a := range as {
@@ -607,6 +611,11 @@ func HasCondClass(ns []Node) bool {
 			case ClassExprAttr:
 				if inCond {
 					found = true
+				}
+			case ScriptAttr:
+				if inCond {
+					found = true
+					condScript = true
 				}
 			case CondAttr:
 				attrs(a.Then, true)
@@ -642,7 +651,7 @@ func HasCondClass(ns []Node) bool {
 		}
 	}
 	walk(ns)
-	return found
+	return found, condScript
 }
 
 // defs returns what is emitted in front of an element for its css-template classes and script-template handlers
@@ -670,15 +679,27 @@ func (ip *Interp) defs(as []Attr) string {
 		}
 	}
 	classes(as, true)
-	for _, a := range as {
-		switch a := a.(type) {
-		case CSSClassAttr:
-			css = true
-		case ScriptAttr:
-			scr = true
-			ids = append(ids, a.ID)
+	var scripts func(as []Attr, reached bool)
+	scripts = func(as []Attr, reached bool) {
+		for _, a := range as {
+			switch a := a.(type) {
+			case CSSClassAttr:
+				css = true
+			case ScriptAttr:
+				// the generator collects the script expressions of both branches of conditional attributes
+				// (getAttributeScripts) and evaluates them in front of the element: same defect-aware switch
+				if reached || ip.HoistAllCondClasses {
+					scr = true
+					ids = append(ids, a.ID)
+				}
+			case CondAttr:
+				t := ip.A.BoolVal(a.Cond)
+				scripts(a.Then, reached && t)
+				scripts(a.Else, reached && !t)
+			}
 		}
 	}
+	scripts(as, true)
 	if css && !ip.cssDone {
 		ip.cssDone = true
 		b.WriteString(q(`<style type="text/css">`) + `\.cssCls_[0-9a-f]+\{color:red;\}` + q(`</style>`))
